@@ -50,7 +50,7 @@ Qed.
 Lemma js_receiver_reify en pc x s : js_ok en x ->
   js_receiver (reify_e en pc x) s = if needs_paren en x then ("(" ++ s ++ ")")%string else s.
 Proof.
-  destruct x as [n|k|n|i|i|n|n|o a b|a|a|f args|f args|items|items|fam pid a]; intros Hok; cbn [reify_e needs_paren js_receiver]; try reflexivity.
+  destruct x as [n|k|n|i|i|n|n|o a b|a|a|f args|f args|items|items|fam pid a|pid it mn]; intros Hok; cbn [reify_e needs_paren js_receiver]; try reflexivity.
   - rewrite str_of_int_no_quote. reflexivity.
   - destruct (nth k (e_consts en) (CInt 0)); cbn [const_node js_receiver]; [|rewrite str_of_int_no_quote; reflexivity].
     match goal with |- context[starts_with ?q ?t] => destruct (starts_with q t) end; reflexivity.
@@ -92,6 +92,7 @@ Proof.
     destruct (reify_args en pc l) as [ns pa] eqn:Er. cbn [gen_js].
     pose proof (js_list_strs fm en l IHl Hl pc ind) as E. rewrite Er in E. cbn [fst] in E. rewrite E. reflexivity.
   - intros f pid x _ [].
+  - intros pid it mn _ _ [].
   - intros _ pc ind. reflexivity.
   - intros x l IHx IHl [Hx Hl] pc ind. cbn [reify_args]. destruct (reify_args en (pc + zlen (compile_e x)) l) as [ns pa] eqn:Er.
     cbn [fst map]. rewrite (IHx Hx). specialize (IHl Hl (pc + zlen (compile_e x))%Z ind). rewrite Er in IHl. cbn [fst] in IHl. rewrite IHl. reflexivity.
@@ -140,6 +141,7 @@ Proof.
   - intros l Hl. cbn [to_js name_e read_js]. rewrite (all_some_map (name_e fm en) (to_js fm en) l Hl). reflexivity.
   - intros l Hl. cbn [to_js name_e read_js]. rewrite (all_some_map (name_e fm en) (to_js fm en) l Hl). reflexivity.
   - intros f pid x _. reflexivity.
+  - intros pid it mn _ _. reflexivity.
   - constructor.
   - intros x l Hx Hl. constructor; assumption.
 Qed.
